@@ -7,12 +7,18 @@
 (* uses them to judge recorded runs of the real pipeline.                  *)
 (*                                                                         *)
 (* A program *version* is                                                  *)
-(*   [prog     |-> an LSem program (Den ignores plan annotations),         *)
-(*    grounded |-> Seq([p |-> predicate, t |-> table name in the file])]   *)
+(*   [prog     |-> an LSem program (Den ignores plan annotations; the      *)
+(*                 order/limit fields of a predicate are @OrderBy/@Limit), *)
+(*    attached |-> Seq(database alias)   @AttachDatabase(alias, <file>),   *)
+(*    dataset  |-> alias or ""           @Dataset(alias), "" = not given,  *)
+(*    grounded |-> Seq([p |-> predicate, t |-> "" | "alias.name"])]        *)
+(*                                       @Ground(p) / @Ground(p, "a.n")    *)
 (* and the operators below take it prepared: v = Prep(version).            *)
-(* A *file* is a function  table name -> bag of rows  (a sequence; "$" is  *)
-(* the sentinel key that keeps DOMAIN a set of strings).  A table that is  *)
-(* not in the DOMAIN does not exist.                                       *)
+(* The persistent state is ALL attached database files together: `file` is *)
+(* a function  "alias.name" -> bag of rows  (table `name` of the file      *)
+(* attached as `alias`; a sequence; "$" is the sentinel key that keeps     *)
+(* DOMAIN a set of strings).  A key that is not in the DOMAIN: no such     *)
+(* table in that file.                                                     *)
 (***************************************************************************)
 EXTENDS LSem
 
@@ -20,6 +26,15 @@ EmptyFile == ("$" :> <<>>)
 TablesOf(file) == (DOMAIN file) \ {"$"}
 
 RawGPreds(raw) == {raw.grounded[i].p : i \in 1..Len(raw.grounded)}
+
+(* Where @Ground(p) without a table name writes: the dataset named by       *)
+(* @Dataset, else logica_home when a database is attached under that name,  *)
+(* else logica_test (compiler/universe.py Annotations.Dataset; the docs'    *)
+(* example attaches logica_home and finds its table there).                 *)
+DefaultDataset(raw) ==
+  IF raw.dataset # "" THEN raw.dataset
+  ELSE IF "logica_home" \in Range(raw.attached) THEN "logica_home" ELSE "logica_test"
+RawTable(raw, g) == IF g.t = "" THEN DefaultDataset(raw) \o "." \o g.p ELSE g.t
 
 (* What the query of p reads: the ungrounded predicates below p (they are  *)
 (* part of p's own query) and the grounded ones it meets first (those are  *)
@@ -40,11 +55,13 @@ Prep(raw) ==
       G == RawGPreds(raw)
       mat == {p \in DOMAIN pm : ~pm[p].inline}
   IN [prog |-> raw.prog, grounded |-> raw.grounded, pm |-> pm, G |-> G,
+      tab |-> [q \in G |-> RawTable(raw, raw.grounded[CHOOSE i \in 1..Len(raw.grounded) :
+                                                         raw.grounded[i].p = q])],
       local |-> [p \in mat |-> LocalGo(pm, G, {}, {p})],
       gdeps |-> [p \in mat |-> (DepsT(pm, {}, {p}) \cap G) \ {p}]]
 
 GPreds(v) == v.G
-TableOf(v, q) == v.grounded[CHOOSE i \in 1..Len(v.grounded) : v.grounded[i].p = q].t
+TableOf(v, q) == v.tab[q]      \* "alias.name"
 VPM(v) == v.pm
 Local(v, p) == v.local[p]
 
